@@ -35,7 +35,7 @@ func runC11(c *fw.Ctx, idx int) fw.Result {
 	var res fw.Result
 	r := fw.NewRng(c.Seed, "C11", idx)
 	format := []string{"gb", "gff"}[r.Intn(2)]
-	opts := gen.AnnoOpts{MaxFeats: 4, AllowUnnamed: true, AllowSlip: true, SplitCodons: true}
+	opts := gen.AnnoOpts{MaxFeats: 4, AllowUnnamed: true, AllowSlip: true, SplitCodons: true, SamConflicts: true, Rotate: true, NoStop: true}
 	ac := makeAnnoCase(r, c.Thorough(), format, "sam", gen.DefaultVarProfile(), 6, opts)
 	L := len(ac.an.Ref)
 	appendSNP := r.Chance(0.5)
